@@ -6,7 +6,7 @@ from __future__ import annotations
 import ast
 
 from .absint import BoundFunc, Closure, Lin, MiniInterp, PyRaise, Sym, Unknown
-from .core import FuncInfo, Project, attr_chain, const_int, unparse
+from .core import AnalysisError, FuncInfo, Project, attr_chain, const_int, unparse
 
 
 class Run:
@@ -62,7 +62,8 @@ def run_site(prj: Project, fi: FuncInfo, args: list, kwargs: dict | None = None,
 
 def new_instance(prj: Project, ci, args=(), kwargs=None):
     it = MiniInterp(prj, _hook(Run()))
-    return it.construct(ci, list(args), kwargs or {}, None, next(iter(ci.methods.values())))
+    anchor = next(iter(ci.methods.values()), None) or MiniInterp.module_anchor(ci.module, None) or next(iter(prj.funcs.values()))
+    return it.construct(ci, list(args), kwargs or {}, None, anchor)
 
 
 def deep_values(x, seen=None, depth=0):
@@ -91,8 +92,22 @@ def deep_strs(x) -> list:
     return [v for v in deep_values(x) if isinstance(v, str)]
 
 
-def measurement(v, name="f"):
-    return Sym("measurement", _open=True, value=v, unit_name=name)
+def measurement(v, name="f", prj=None, start=(7, 3), end=None):
+    """a function measurement of length v: with a project, an instance of the repo's own Measurement (with its Locations) built through
+    its constructors, so that whatever the class defines (properties, comparison methods) is what the sites see; a plain record otherwise"""
+    end = end or (start[0] + v, 1)
+    if prj is not None:
+        try:
+            mc = prj.cls("codelimit.common.Measurement:Measurement")
+            lc = prj.cls("codelimit.common.Location:Location")
+            a, b = new_instance(prj, lc, list(start)), new_instance(prj, lc, list(end))
+            try:
+                return new_instance(prj, mc, [], {"unit_name": name, "start": a, "end": b, "value": v})
+            except PyRaise:
+                return new_instance(prj, mc, [name, a, b, v])
+        except (Unknown, PyRaise, AnalysisError, KeyError, AttributeError):
+            pass
+    return Sym("measurement", value=v, unit_name=name, start=Sym("loc", line=start[0], column=start[1]), end=Sym("loc", line=end[0], column=end[1]))
 
 
 def default_args(prj: Project, fi: FuncInfo, v: int):
@@ -115,19 +130,17 @@ def default_args(prj: Project, fi: FuncInfo, v: int):
                 args.append(Sym(p, _open=True))
         elif "ReportUnit" in at or p in ("report_units", "units"):
             ru = prj.cls("codelimit.common.report.ReportUnit:ReportUnit")
-            m = measurement(v)
-            m.fields.setdefault("start", Sym("loc", line=7, column=3))
-            m.fields.setdefault("end", Sym("loc", line=7 + v, column=1))
+            m = measurement(v, prj=prj)
             unit = MiniInterp(prj).construct(ru, ["dir/file.py", m], {}, None, fi)
             args.append([unit] if ("list" in at or "List" in at or "Iterable" in at or "Sequence" in at or p.endswith("s")) else unit)
         elif "Measurement" in at and ("list" in at or "List" in at or "Iterable" in at or "Sequence" in at):
-            args.append([measurement(v)])
+            args.append([measurement(v, prj=prj)])
         elif "Measurement" in at or p in ("m", "measurement"):
-            args.append(measurement(v))
+            args.append(measurement(v, prj=prj))
         elif at == "int" or p in ("value", "length", "loc"):
             args.append(v)
         elif p == "measurements":
-            args.append([measurement(v)])
+            args.append([measurement(v, prj=prj)])
         elif d is not None:
             break
         else:
